@@ -36,7 +36,7 @@ MOD = "checks.c20"
 # palettes
 
 DTYPES = ("float64", "int64", "bool")
-FILLS = ("ramp", "zero", "special", "edge", "seeded")
+FILLS = ("ramp", "zero", "special", "edge", "subunit", "seeded")
 TITLES_QUICK = ("MATRIX", "J_1", "Tb")                                   # default, odd length, even length
 TITLES_THOROUGH = TITLES_QUICK + ("", "Jacobian of arm no. 7")           # + empty (even) and long (odd, 21)
 ND_ALL = tuple(range(9))
@@ -50,6 +50,8 @@ SPECIAL_F = (float("inf"), float("-inf"), float("nan"), 1e300, -1e300, -9998.5, 
 # carries into the next integer, tiny values, negative zero
 EDGE_F = (-9998.5, 9998.5, 9998.999999999, -9998.999999999, 0.5, -0.5, 1.5, 2.5, 0.125, -0.375, -0.0, 1e-9, 4e-10,
           999.9999999951, 0.049999999, 9998.4999)
+# between half a display unit and one display unit, for every number of decimals (0.7e-m rounds to 1e-m, 0.49e-m to 0)
+SUB_F = tuple(sg * 10.0 ** -m for m in range(0, 10) for sg in (0.7, -0.8, 0.51, -0.49))
 SPECIAL_I = (9999, -9999, 10000, 2 ** 62, -2 ** 63, 123456789, -10 ** 12)
 EDGE_I = (-9998, 9998, 0, 1, -1, 5000, -37)
 
@@ -97,13 +99,15 @@ def make_array(shape, dtype, fill, seed):
             a = np.array([SPECIAL_F[(i + off) % len(SPECIAL_F)] for i in range(n)], dtype=float)
         elif fill == "edge":
             a = np.array([EDGE_F[(i + off) % len(EDGE_F)] for i in range(n)], dtype=float)
+        elif fill == "subunit":
+            a = np.array([SUB_F[(i + 3 * off) % len(SUB_F)] for i in range(n)], dtype=float)
         else:
             a = rng.uniform(-9998.0, 9998.0, n)
         a = a.astype(np.float64)
     elif dtype == "int64":
         if fill == "ramp":
             a = np.where(k % 3 == 1, -1, 1) * (3 * k + 1)
-        elif fill == "zero":
+        elif fill in ("zero", "subunit"):
             a = np.zeros(n, dtype=np.int64)
         elif fill == "special":
             a = np.array([SPECIAL_I[(i + off) % len(SPECIAL_I)] for i in range(n)], dtype=np.int64)
@@ -115,7 +119,7 @@ def make_array(shape, dtype, fill, seed):
     elif dtype == "bool":
         if fill == "ramp":
             a = (k % 3 == 0) ^ (k % 5 == 1)
-        elif fill == "zero":
+        elif fill in ("zero", "subunit"):
             a = np.zeros(n, dtype=bool)
         elif fill == "special":
             a = np.ones(n, dtype=bool)
